@@ -910,6 +910,9 @@ fn main() {
         if case % 10 == 9 {
             for m in sources_probe(&mut r) { writeln!(w, "X colls sources probe :: {m}").unwrap(); }
         }
+        if case % 10 == 4 {
+            for m in independence_probe(&mut r) { writeln!(w, "X colls parts probe :: {m}").unwrap(); }
+        }
         if case % 10 == 1 || case % 10 == 6 {
             let (notes, cline) = producers_probe(&mut r);
             if let Some(c) = cline { writeln!(w, "{c}").unwrap(); }
